@@ -292,6 +292,16 @@ def check(ctx):
     ctx.floor("C18-R3", "lock-order edges", len(pairs), 1)
 
     _accounting(ctx, repo, cg, cfuncs, base_lock, assume)
+    # ---- R7 worker threads create directories concurrently: creation must be create-or-exists in one step
+    ctx.rule("C18-R7", "worker routines create directories with os.makedirs(..., exist_ok=True): a separate existence test followed by a plain makedirs lets two concurrent updates under one new directory race (the loser raises FileExistsError and its entry stays 'writing' for good)")
+    mk = [(f, c) for f in cfuncs for c in calls_in(f.node) if (dotted(c.func) or "").endswith(("os.makedirs", "os.mkdir")) or callee_name(c) in ("makedirs", "mkdir")]
+    ctx.floor("C18-R7", "directory creations in the cache", len(mk), 1)
+    for f, c in mk:
+        ctx.instance("C18-R7", f.fq, src(c)[:60])
+        ok = callee_name(c) == "makedirs" and any(k.arg == "exist_ok" and isinstance(k.value, ast.Constant) and k.value.value is True for k in c.keywords)
+        ctx.ob("C18-R7", f.fq, "the directory is created with exist_ok=True", ok, node=c, construct=f"directory created without exist_ok in {f.name}",
+               msg=f"{f.name} creates the directory with `{src(c)[:60]}`: when two updates of different files under the same new directory run concurrently, the second creation raises FileExistsError; "
+                   "that update neither succeeds nor reports 'not applied' and its entry keeps the writing flag")
     _refusal(ctx, repo, base_lock)
     _completion_order(ctx, repo, cg)
 
@@ -377,6 +387,16 @@ def _accounting(ctx, repo, cg, cfuncs, base_lock, assume, concurrency=True):
                 ctx.instance("C18-R4", f.fq, src(s_)[:70])
                 ok3 = bool(dels)
                 ctx.ob("C18-R4", f.fq, "(A3) the subtraction comes with the removal of the entry", ok3, node=s_, construct=f"A3 total -= with removal in {f.name}")
+            # A3 (converse): where a section un-accounts AND removes, the removal never happens without the subtraction
+            if subs:
+                for d_ in dels:
+                    n += 1
+                    dc = [(id(t), p_) for t, p_ in path_conditions(d_, f.node)]
+                    ok3 = any(all(c_ in dc for c_ in [(id(t), p_) for t, p_ in path_conditions(s_, f.node)]) for s_ in subs)
+                    ctx.ob("C18-R4", f.fq, "(A3) the entry is removed only together with `total -= its bytes` (the subtraction is under no condition the removal is not under)", ok3, node=d_,
+                           construct=f"A3 removal without total -= in {f.name}",
+                           msg=f"{f.name} can delete an entry without taking its bytes off the total (the subtraction is conditional, the removal is not): the total stays too high for good and later "
+                               "admissions are refused or evict files needlessly")
     if not concurrency:
         ctx.floor("C18-R4", "accounting sites examined", n, 3)
         return
@@ -600,6 +620,9 @@ MUTATION_SCOPE = ['db/file_cache:FileCache._load_file',
                   'db/df_cache:PandasDataFrameCache.update']
 
 SEEDS = [
+    Seed("makedirs-check-then-create", "fault", "db/file_cache", "        os.makedirs(write_path, exist_ok=True)", "        if not os.path.isdir(write_path):\n            os.makedirs(write_path)", rule="C18-R7"),
+    Seed("unload-subtracts-only-when-done", "fault", "db/file_cache", "            self.current_memory_usage -= info[1]\n            del self.file_futures[file_name]",
+         "            if info[-1].done():\n                self.current_memory_usage -= info[1]\n            del self.file_futures[file_name]", rule="C18-R4"),
     Seed("update-overwrites-without-unload", "fault", FC, "                self._unload_file(file_name)\n                future = self.executor.submit(self._write_file", "                future = self.executor.submit(self._write_file", rule="C18-R4"),
     Seed("read-outside-lock", "fault", FC, "        with self.file_futures_lock:\n            info = self.file_futures.get(file_name)\n            if info is None:\n                tinfo(f\"get_file: {file_name}\")",
          "        info = self.file_futures.get(file_name)\n        with self.file_futures_lock:\n            if info is None:\n                tinfo(f\"get_file: {file_name}\")", rule="C18-R1"),
